@@ -369,6 +369,14 @@ def extra_bases(seed):
         out += [smin, smax, ['neg', smax], ['neg', smin], ['mul', K['i2'], smin], ['mul', K['im1'], smax],
                 ['add', smin, x], ['sub', x, smax], ['add', v, smin], ['add', ['abs', v], smax],
                 ['add', smin, ['min1', v]], ['sub', smin, smax]]
+    # constant columns whose FIRST entry is zero (and later entries are not): shortcuts that test "is the constant zero"
+    # must look at the whole column
+    s = seed % 4
+    Z2 = ['const', 'dense', [2, 1], [0.0, (3.0, -2.0, 1.5, -0.5)[s]]]
+    Z3 = ['const', 'dense', [3, 1], [0.0, (2.0, -1.0, 0.5, 4.0)[s], (-1.0, 3.0, -2.0, 0.25)[s]]]
+    out += [['rmul', x, Z3], ['rmul', x, Z2], ['rmul', ['sum', y], Z2], ['rmul', ['sub', ['sum', z], x], Z3], ['rmul', ['abs', x], Z2],
+            ['add', y, Z2], ['sub', Z3, z], ['mul', K['i2'], ['add', y, Z2]], ['mul', K['dm22'], ['sub', y, Z2]],
+            ['mul', K['fn'], ['abs', ['sub', z, Z3]]], ['max', y, Z2], ['min', Z3, z]]
     return out
 
 
